@@ -152,7 +152,28 @@ func (m *MonC09) OnQuiescent(w *World, epoch int) {
 				continue
 			}
 			if !CondTrue(o, "Paused") {
-				w.Report(Violation{Property: "C09", Rule: "paused-reporting", Sig: "paused-condition", Msg: fmt.Sprintf("at quiescence paused %s does not report Paused=True (conditions %v)", k, Conditions(o))})
+				// cause: a delegated phase object taken over by name (left behind by an orphan-deleted set of the
+				// same name) carries no owner reference, so nothing tells the set when the phase has paused
+				sig := "paused-condition"
+				byName, allPaused := 0, true
+				for _, ph := range phasesInfo(o, w.sliceLookup(o)) {
+					if ph.Class == "" {
+						continue
+					}
+					pk := store.Key{Group: PKOGroup, Kind: map[bool]string{true: "ClusterObjectSetPhase", false: "ObjectSetPhase"}[k.Kind == "ClusterObjectSet"], Namespace: k.Namespace, Name: k.Name + "-" + ph.Name}
+					po, ok := w.Mgmt.Objs[pk]
+					if !ok || IsControlledBy(po, o, "native") {
+						continue
+					}
+					byName++
+					if b, _ := store.Get(po, "spec", "paused").(bool); !b || !CondTrue(po, "Paused") {
+						allPaused = false
+					}
+				}
+				if byName > 0 && allPaused {
+					sig += "/phase-object-without-owner-reference-has-paused"
+				}
+				w.Report(Violation{Property: "C09", Rule: "paused-reporting", Sig: sig, Msg: fmt.Sprintf("at quiescence paused %s does not report Paused=True (conditions %v)", k, Conditions(o))})
 				continue
 			}
 			// Available equals the reference evaluation of the objects (local phases only)
